@@ -424,6 +424,11 @@ pub fn tlv_suffixes(path_trace_on: bool) -> Vec<(String, Vec<Tlv>, Vec<u8>)> {
         }
         v.push((format!("path-trace-{n}"), vec![Tlv { typ: 0x0008, value: val }], vec![]));
     }
+    // ragged path traces: value lengths that are not a whole number of clock identities
+    for len in [2usize, 4, 6, 10, 12, 14, 8 * 127 + 2, 8 * 128 + 4] {
+        let val: Vec<u8> = (0..len).map(|i| 0xb0 ^ (i as u8)).collect();
+        v.push((format!("path-trace-ragged-{len}"), vec![Tlv { typ: 0x0008, value: val }], vec![]));
+    }
     // own identity inside the path (loop)
     v.push(("path-trace-loop".into(), vec![Tlv { typ: 0x0008, value: NodeSpec::default().identity.to_vec() }], vec![]));
     // propagating TLV whose wire size is around the room left in an Announce (1024 - 64 = 960;
@@ -499,6 +504,24 @@ fn lattice_announce(t: &mut Tally, st: &Seeded) {
         }
     }
     run_batch(t, st, "announce-content", cases);
+    // every TLV value length 0..=1100 (odd ones included) for the TLV types the port interprets
+    // itself, on the third Announce of the parent (the port is slave by then where it can be)
+    let mut cases = vec![];
+    for typ in [0x0008u16, 0x4000, 0x0009] {
+        for len in 0..=1100usize {
+            if typ != 0x0008 && len % 2 == 1 && len > 64 {
+                continue;
+            }
+            let val: Vec<u8> = (0..len).map(|i| 0xb0 ^ (i as u8)).collect();
+            let m3 = a.announce_msg(3).with_tlvs(vec![Tlv { typ, value: val }]);
+            let mut evs = vec![raw(0, &rc::encode(&a.announce_msg(1)), false), raw(0, &rc::encode(&a.announce_msg(2)), false), Ev::Bmca, raw(0, &rc::encode(&m3), false)];
+            for q in 0..n_ports {
+                evs.push(Ev::T(q, Timer::Announce));
+            }
+            cases.push(evs);
+        }
+    }
+    run_batch(t, st, "announce-tlv-lengths", cases);
 }
 
 fn lattice_framing(t: &mut Tally, st: &Seeded) {
